@@ -107,6 +107,13 @@ CHECKS = {
                 'cluster executions under the full fault matrix, plus tick-progress assertion',
                 text='held on K executions: no traceback reached a last-resort guard, no non-RPCError left an '
                      'XML-RPC method, no proxy thread died, tick counters kept advancing', ref='8/C16', note=TRUST_L3),
+    'C17': dict(engine=ENGINE_L3, technique='runtime monitoring: online oracle around every probed XML-RPC (gate table '
+                'written from the statement against the state the instance reports just before the call; full status '
+                'snapshot and emission counters before / after every rejected call) while a real history drives the '
+                'cluster through every Supvisors state',
+                text='held on every (state, method, role, parameter class) probe made; the matrix is sampled, its '
+                     'coverage (cells reached, probes per state) is reported and floored', ref='8/C17 + Appendix A',
+                note=TRUST_L3),
     'C18': dict(engine=ENGINE_L1, technique='runtime monitoring: reference-model monitor on the real Parser (lxml+XSD '
                 'and ElementTree modes), rules classes and SupvisorsOptions with generated documents and option sets',
                 text='held on every generated lookup and option set: field-by-field equality with a reference '
